@@ -196,6 +196,84 @@ pub fn run(ctx: &Ctx) -> Outcome {
         }
         co
     });
+    // user space is one space: magnifying it by a power of two while shrinking everything given in user space by
+    // the same factor (geometry, stroke width, dash lengths, gradient and image geometry) is exact in f32 and must
+    // give the same picture at every scale the working range allows
+    run_cases(ctx, &mut out, SubSpec { name: "power_of_two_scale_invariance", cases: ctx.n(60_000, 1_000_000), exhaustive: false, max_secs: secs }, |i, want, st| {
+        let mut rng = ctx.rng("power_of_two_scale_invariance", i);
+        let w = rng.int(2, 20) as i32;
+        let h = rng.int(2, 20) as i32;
+        let n = (w * h) as usize;
+        let init = canary(&mut rng, n);
+        let t = random_transform(&mut rng, w as f64, h as f64);
+        let e = *rng.pick(&[-14i32, -13, -12, -11, -10, -9, -8, -6, -3, 3, 6, 8, 9, 10, 11, 12]);
+        let k = (2.0f32).powi(e);
+        let src = scale_invariant_source(&random_source(&mut rng, w, h, 3));
+        let o = DrawOptions { blend_mode: random_mode(&mut rng), alpha: random_alpha(&mut rng), antialias: if rng.chance(0.7) { AntialiasMode::Gray } else { AntialiasMode::None } };
+        let curves = rng.chance(0.5);
+        let op = match rng.below(10) {
+            8 | 9 => {
+                let (iw, ih) = (rng.int(1, 5) as i32, rng.int(1, 5) as i32);
+                let img = Img { w: iw, h: ih, data: random_image_data(&mut rng, iw, ih) };
+                if rng.chance(0.5) {
+                    Op::DrawImageAt(rng.int(-2, w as i64) as f32, rng.range(-2., h as f64) as f32, img, o)
+                } else {
+                    Op::DrawImageWithSizeAt(rng.range(1., 9.) as f32, rng.range(1., 9.) as f32, rng.range(-2., w as f64) as f32, rng.range(-2., h as f64) as f32, img, o)
+                }
+            }
+            0 | 1 => Op::Fill(random_path(&mut rng, w, h, curves), src, o),
+            2 => Op::Fill(small_shape(&mut rng, w, h), src, o),
+            3 | 4 => Op::Stroke(random_path(&mut rng, w, h, curves), src, random_style(&mut rng, 5.), o),
+            5 => Op::FillRect(rng.int(-1, w as i64) as f32, rng.int(-1, h as i64) as f32, rng.int(1, w as i64) as f32, rng.int(1, h as i64) as f32, src, o),
+            6 => Op::FillRect(rng.range(-1., w as f64) as f32, rng.range(-1., h as f64) as f32, rng.range(0.5, w as f64) as f32, rng.range(0.5, h as f64) as f32, src, o),
+            _ => {
+                let (mw, mh) = (rng.int(1, w as i64) as i32, rng.int(1, h as i64) as i32);
+                Op::Mask(src, rng.int(-1, 2) as i32, rng.int(-1, 2) as i32, mw, mh, (0..(mw * mh)).map(|_| rng.byte_biased()).collect())
+            }
+        };
+        let clip_path = if rng.chance(0.2) { Some(small_shape(&mut rng, w, h)) } else { None };
+        let mut co = CaseOut::default();
+        co.hash = crate::prng::hash_str(&format!("{:?}{:?}{:?}{}{:?}", (w, h), t, op, e, clip_path));
+        let render = |scale: Option<f32>| -> Vec<u32> {
+            let mut dt = DrawTarget::from_vec(w, h, init.clone());
+            let apply = |dt: &mut DrawTarget, op: &Op| match scale {
+                Some(k) => scaled_twin(op, k).expect("has a twin").apply(dt),
+                None => op.apply(dt),
+            };
+            apply(&mut dt, &Op::SetTransform(t));
+            if let Some(p) = &clip_path {
+                apply(&mut dt, &Op::PushClip(p.clone()));
+            }
+            apply(&mut dt, &op);
+            if clip_path.is_some() {
+                dt.pop_clip();
+            }
+            dt.into_vec()
+        };
+        let a = render(None);
+        let b = render(Some(k));
+        let changed = a.iter().zip(init.iter()).filter(|(p, q)| p != q).count();
+        co.nontrivial = changed > 0 && changed < n;
+        st.add(&format!("scale:2^{}", e), 1);
+        st.add(&format!("scaled:{}", op.name()), 1);
+        if let Some(i) = a.iter().zip(b.iter()).position(|(x, y)| x != y) {
+            let differing = a.iter().zip(b.iter()).filter(|(x, y)| x != y).count();
+            co.viol("C11", format!("{} under T gives {} at ({},{}) but {} when user space is magnified by 2^{} and everything given in user space shrunk by the same factor ({} pixels differ)", op.name(), hex(a[i]), i as i32 % w, i as i32 / w, hex(b[i]), e, differing));
+        }
+        if want || !co.violations.is_empty() {
+            let mut d = J::obj();
+            d.set("surface", J::s(&format!("{}x{}", w, h)));
+            d.set("transform", J::s(&transform_str(&t)));
+            d.set("scale_exponent", J::Int(e as i64));
+            d.set("call", op.desc());
+            if let Some(p) = &clip_path {
+                d.set("clip_path", J::s(&path_str(p)));
+            }
+            d.set("initial_pixels", pixels_json(&init));
+            co.desc = Some(d);
+        }
+        co
+    });
     run_cases(ctx, &mut out, SubSpec { name: "singular_transform_draws_nothing", cases: ctx.n(60_000, 1_000_000), exhaustive: false, max_secs: secs / 2. }, |i, want, st| {
         let mut rng = ctx.rng("singular_transform_draws_nothing", i);
         let w = rng.int(1, 16) as i32;
